@@ -373,6 +373,40 @@ def replay(wit, ctx):
         if (want is not None and nick != want) or (want is None and (nick in ("UKSP", "GPDP", "IGKS", "EKS")
                                                                       or nick != str(sa))):
             ctx.violation(wit["signature"], f"nickname {nick!r}, expected {want}", case)
+    elif "number_type" in case:
+        class Penalty(float):
+            """a float subclass"""
+        how, base = case["number_type"], case["scheme"]
+
+        def conv(v, j):
+            if how == "np.float64" or (how == "np.float64-one-entry" and j == 1):
+                return np.float64(v)
+            if how == "float-subclass":
+                return Penalty(v)
+            if how == "int-where-integral" and float(v).is_integer():
+                return int(v)
+            if how == "bool-where-0-1" and v in (0.0, 1.0):
+                return bool(v)
+            return v
+        st, got = call(S, [[conv(v, j) for j, v in enumerate(base[0])], [conv(v, j) for j, v in enumerate(base[1])]])
+        if st == "exc":
+            ctx.violation(wit["signature"], f"a valid scheme whose penalties are {how} values was refused: {exc_desc(got)}", case)
+        elif [[float(v) for v in got.penalty_vectors[0]], [float(v) for v in got.penalty_vectors[1]]] != \
+                [[float(v) for v in base[0]], [float(v) for v in base[1]]]:
+            ctx.violation(wit["signature"], f"penalties given as {how} are stored as {got.penalty_vectors}", case)
+    elif "k" in case and "scheme" in case:
+        s0 = S([list(case["scheme"][0]), list(case["scheme"][1])])
+        k = case["k"]
+        t = k * s0 if case.get("side") == "k*s" else s0 * k
+        want = [[ref.fr(v) * ref.fr(k) for v in case["scheme"][0]], [ref.fr(v) * ref.fr(k) for v in case["scheme"][1]]]
+        if [[ref.fr(v) for v in t.penalty_vectors[0]], [ref.fr(v) for v in t.penalty_vectors[1]]] != want:
+            ctx.violation(wit["signature"], f"penalties are not all multiplied by {k}", case)
+        if "ds" in case and "cand" in case:
+            d, c = libx.mk_dataset(case["ds"]), libx.mk_ranking(case["cand"])
+            a = ck.KemenyComputingFactory(s0).get_kemeny_score(c, d)
+            b = ck.KemenyComputingFactory(t).get_kemeny_score(c, d)
+            if ref.fr(float(b)) != ref.fr(float(a)) * ref.fr(k):
+                ctx.violation(wit["signature"], f"kemeny under k*s is not k * kemeny under s (k={k})", case)
     else:
         print("replay: this witness kind is re-checked by running the check itself")
 
